@@ -218,6 +218,9 @@ func Sub(a, b Term) Term { return app(SInt, "-", a, b) }
 func Lt(a, b Term) Term  { return app(SBool, "<", a, b) }
 func Le(a, b Term) Term  { return app(SBool, "<=", a, b) }
 
+// DefineAsEquation selects how intermediate results are named.
+var DefineAsEquation = true
+
 // Script is the ordered log of declarations, definitions and (guarded)
 // assumptions produced while executing one function. An obligation is
 // discharged against the prefix of the log that existed when it was emitted.
@@ -294,14 +297,29 @@ func (s *Script) Define(prefix string, t Term) Term {
 	if len(t.S) < 24 || !strings.ContainsAny(t.S, " ") {
 		return t
 	}
+	if strings.Contains(t.S, "?") {
+		// mentions a bound variable of an enclosing quantifier: cannot be named at top level
+		return t
+	}
 	name := s.Fresh(prefix)
 	s.declared[name] = true
-	s.lines = append(s.lines, fmt.Sprintf("(define-fun %s () %s %s)", name, t.Sort, t.S))
+	if DefineAsEquation {
+		// a constant with a defining equation (rather than a macro): keeps quantifier patterns that mention it free
+		// of ite/and/not, which solvers reject inside patterns
+		s.lines = append(s.lines, fmt.Sprintf("(declare-fun %s () %s)", name, t.Sort), fmt.Sprintf("(assert (= %s %s))", name, t.S))
+	} else {
+		s.lines = append(s.lines, fmt.Sprintf("(define-fun %s () %s %s)", name, t.Sort, t.S))
+	}
 	return Term{name, t.Sort}
 }
 
 func (s *Script) Assume(t Term) {
 	if t.S == "true" {
+		return
+	}
+	if hasFreeBound(t.S) {
+		// a fact about a bound variable outside its quantifier is meaningless: drop it (only ever a redundant
+		// representation fact generated while evaluating a quantified specification)
 		return
 	}
 	s.lines = append(s.lines, fmt.Sprintf("(assert %s)", t.S))
@@ -379,4 +397,33 @@ func sortedKeys[V any](m map[string]V) []string {
 	}
 	sort.Strings(ks)
 	return ks
+}
+
+// hasFreeBound reports whether a formula mentions a bound-variable name (x?N) that it does not bind itself.
+func hasFreeBound(f string) bool {
+	i := 0
+	for {
+		j := strings.Index(f[i:], "?")
+		if j < 0 {
+			return false
+		}
+		j += i
+		// extract the identifier around '?'
+		a := j
+		for a > 0 && !strings.ContainsRune("() ", rune(f[a-1])) {
+			a--
+		}
+		b := j
+		for b < len(f) && !strings.ContainsRune("() ", rune(f[b])) {
+			b++
+		}
+		name := f[a:b]
+		if !strings.Contains(f, "(("+name+" ") && !strings.Contains(f, " ("+name+" ") {
+			return true
+		}
+		i = b
+		if i >= len(f) {
+			return false
+		}
+	}
 }
